@@ -142,7 +142,19 @@ func runC14(c *ctx) {
 			}
 			for i, h := range hosts {
 				ip := fmt.Sprintf("10.%d.%d.%d", wi%250, ti, i+1)
-				switch r.intn(6) {
+				switch r.intn(8) {
+				case 6: // several addresses in the control plane's own order (not sorted, with a repetition): the FIRST one binds
+					addKey(bc.VerifExpand(h), []string{"192.168.7." + fmt.Sprint(i+1), ip, "10.9.9.9", ip})
+				case 7: // the service is known under ANOTHER domain only (multi-cluster alias): the table cannot resolve the host
+					fq := bc.VerifExpand(h)
+					if strings.HasSuffix(fq, ".svc."+cfg[1]) {
+						addKey(strings.TrimSuffix(fq, cfg[1])+"clusterset.local", []string{"10.77.0." + fmt.Sprint(i+1)})
+						if r.bool() {
+							addKey(fq, []string{ip}) // ... or under both, with different addresses: the configured domain counts
+						}
+					} else {
+						addKey(h, []string{ip})
+					}
 				case 0, 1: // fqdn key
 					addKey(bc.VerifExpand(h), []string{ip, "10.9.9.9"})
 				case 2: // literal key
